@@ -179,3 +179,68 @@ def tuple_item(cfg, node, item, arity=2):
                 # the tuple's components must not change between the binding and the put
                 return d.ast.value
     return None
+
+
+class Unpack:
+    """How a dequeued message `z` is taken apart inside a loop: `a, b = z`, or `a = z[0]; b = z[1]`."""
+
+    def __init__(self, node, names, ids):
+        self.node = node  # anchor: the tuple assignment, or the last of the index assignments
+        self.ast = node.ast
+        self.id = node.id
+        self.names = names  # component names by position (None where the target is not a plain name)
+        self.ids = ids  # ids of all nodes that bind a component
+
+
+def find_unpack(cfg, loop_id, zname, pending_none=False):
+    """The unpack of message variable `zname` in the loop `loop_id` (the last one in node order), or None."""
+    if zname is None:
+        return None
+    found = None
+    byidx = {}
+    for n in cfg.nodes:
+        if loop_id is not None and loop_id not in n.loops:
+            continue
+        if pending_none and n.pending is not None:
+            continue
+        a = n.ast
+        if not (isinstance(a, ast.Assign) and len(a.targets) == 1):
+            continue
+        t, v = a.targets[0], a.value
+        if isinstance(t, ast.Tuple) and isinstance(v, ast.Name) and v.id == zname:
+            found = Unpack(n, [e.id if isinstance(e, ast.Name) else None for e in t.elts], {n.id})
+        elif isinstance(t, ast.Name) and isinstance(v, ast.Subscript) and isinstance(v.value, ast.Name) and v.value.id == zname and isinstance(v.slice, ast.Constant) and isinstance(v.slice.value, int) and v.slice.value >= 0:
+            byidx.setdefault(v.slice.value, []).append((n, t.id))
+    if found is not None:
+        return found
+    if byidx and sorted(byidx) == list(range(len(byidx))) and all(len(v) == 1 for v in byidx.values()):
+        nodes = [byidx[i][0][0] for i in range(len(byidx))]
+        last = max(nodes, key=lambda n: n.id)
+        return Unpack(last, [byidx[i][0][1] for i in range(len(byidx))], {n.id for n in nodes})
+    return None
+
+
+def resolve_local(cfg, node, expr, depth=2):
+    """`expr` itself, or -- when it is a local name with a single reaching definition `name = value` whose
+    operands are not re-bound between that definition and `node` -- that value (so `y = func(v); yield y`
+    reads like `yield func(v)`)."""
+    from mpsa.flow import reaching_defs
+
+    while depth > 0 and isinstance(expr, ast.Name):
+        rd = reaching_defs(cfg, expr.id, start=cfg.entry).get(node.id, frozenset())
+        if len(rd) != 1:
+            break
+        d = cfg.nodes[next(iter(rd))]
+        a = d.ast
+        if not (d.kind == 'stmt' and isinstance(a, ast.Assign) and len(a.targets) == 1 and isinstance(a.targets[0], ast.Name)):
+            break
+        stable = True
+        for nm in {x.id for x in ast.walk(a.value) if isinstance(x, ast.Name)}:
+            r = reaching_defs(cfg, nm, start=cfg.entry)
+            if r.get(d.id, frozenset()) != r.get(node.id, frozenset()):
+                stable = False
+        if not stable:
+            break
+        expr = a.value
+        depth -= 1
+    return expr
